@@ -909,29 +909,6 @@ def hasMapArray : List Item → Bool
   | .array _ :: _ => true
   | _ :: xs => hasMapArray xs
 
-/-- trigger of F18i: a map / array item may be tested against a typed function test
-(maps.py / arrays.py `match_function_test` sample the argument type with a key / with the integer 1
-and use `any` over the entries) -/
-def trigF18i (t : Ty) (v : List Item) : Bool := t.hasTypedFunc && hasMapArray v
-
-/-- trigger of F18d for one item: `instance of` / `treat as` evaluate a node kind test as a self-axis
-path step -/
-def trigF18dItem (l : Leaf) : Item → Bool
-  | .node k _ kids root =>
-    match l with
-    | .anyNode => k == .document && !root                       -- node() only yields the context root document
-    | .kind .namespace .none => k == .element                   -- namespace-node() yields the element's namespaces
-    | .kind .attribute .none => k == .element && !kids.isEmpty  -- attribute tests iterate the element's attributes
-    | .kind .attribute .wild => k == .element && !kids.isEmpty
-    | .kind .attribute (.name n) => k == .element && kids.contains n
-    | _ => false
-  | _ => false
-
-def trigF18d (t : Ty) (v : List Item) : Bool :=
-  match t with
-  | .leaf l _ => v.any (trigF18dItem l)
-  | _ => false
-
 def Leaf.isKindTest : Leaf → Bool
   | .kind _ _ => true | .kindT _ _ _ _ => true | .docElem _ => true | _ => false
 
@@ -981,9 +958,5 @@ def docsWellFormed : List Item → Bool
   | [] => true
   | .node .document _ kids _ :: xs => kids.length ≤ 1 && docsWellFormed xs
   | _ :: xs => docsWellFormed xs
-
-/-- domain of `match_eq_spec` -/
-def inDomain (t : Ty) (v : List Item) : Bool :=
-  t.atomicNamesOnly && docsWellFormed v && !trigF18i t v
 
 end EPV.SeqType
